@@ -475,7 +475,7 @@ func dhcpOnce(a []string) (obs string, wire []byte) {
 			size += 2 + len(kv.v)
 		}
 	}
-	if okDom && size <= 1024 && 241+size <= c {
+	if okDom && 241+size <= c {
 		d, ok := refDHCP(out)
 		bad := ""
 		switch {
